@@ -274,6 +274,7 @@ fn gen_fn(rng: &mut Rng, ill: bool) -> Function {
         entry_in_loop: true,
         allow_div: false,
         index_gaps: true,
+        rejected_edges: true,
     };
     let f = gen_function(rng, &g);
     let mut cfg = f.control_flow_graph().clone();
